@@ -11,10 +11,10 @@ TRUSTED = ("TLC 1.8.0 and the CommunityModules Json module; the Go harness (harn
 CHECKS = {
     "C04": dict(
         level="model_checking",
-        technique="TLA+ spec (Merkle.tla) + TLC exhaustive case table + replay of every case into VerifyMerkelProof + TLC trace validation",
+        technique="TLA+ spec (Merkle.tla) + TLC exhaustive case table + replay of every case into VerifyMerkelProof + TLC trace validation; plus TLC trace validation (Bridge.tla verdicts) of deposit / finalisation histories in which only proof-related inputs vary",
         text="TLC enumerates every tree/leaf/position/path-mutation case within the bounds and checks the design theorems "
              "(completeness, position binding, coinbase only at 0, malformed rejected); every case is then executed on the real "
-             "function with random concrete hashes and the verdicts are validated against the specification by TLC.",
+             "function with random concrete hashes and the verdicts are validated against the specification by TLC. The second observation point (acceptance of deposits and withdrawal finalisations that rely on the verification): bridge histories with aliased positions, mutated paths, wrong headers, one-transaction blocks (empty path) and coinbase outputs at maturity, every verdict fixed by Bridge.tla.",
         note=TRUSTED + "; hash collisions excluded by assumption."),
     "C01": dict(
         level="model_checking",
